@@ -128,14 +128,20 @@ def handle (op : String) (j : Json) : Except String Json := do
     match read defaultGrid lay lines with
     | .ok c => .ok (okJson (chartToJson lay lines c))
     | .error e => .ok (errJson e.toString)
+  | "c04.read_file" =>
+    -- `BMSMap.read_file` on the bytes of the file (Python's line splitting is part of the model: `pyLines`)
+    let lay ← getLayout j
+    let b ← bytesOf? (← field j "bytes")
+    match readFile defaultGrid lay b with
+    | .ok c => .ok (okJson (chartToJson lay (pyLines b) c))
+    | .error e => .ok (errJson e.toString)
   | "c04.denote" =>
-    -- the specification with its OWN lexer (`denoteText`: bookLine / bookTable / bookDoc); `shared` = the same
-    -- semantics over the reader's classifier (`denote`), reported so that the harness can check on every case that
-    -- the two agree wherever the by-the-book lexer is defined (`denoteText_eq_denote`)
+    -- the specification with its OWN lexer and header record (`denoteText`: bookLine / bookTable / bookDoc /
+    -- bookHeader); `lex_agree` replays the proved `bookDoc_parseDoc` / `bookHeader_readHeader` on the case;
+    -- `shared_defined` (only evaluated where the by-the-book lexer is silent) = the reader's lexer is more liberal
     let lay ← getBookLayout j
     let lines ← getArr bytesOf? j "lines"
     let den := denoteText lay lines
-    let shared := denote lay lines
     let g := grid defaultMaxDiv
     let bdoc := bookDoc lines
     let notes := match bdoc with | some d => d.notes | none => []
@@ -147,17 +153,25 @@ def handle (op : String) (j : Json) : Except String Json := do
       | some a, .ok b => decide (a.header = b.header) && decide (a.notes = b.notes)
       | some _, .error _ => false
       | none, _ => true
-    let denAgree : Bool := match den, shared with
-      | some a, some b => decide (a.hits = b.hits) && decide (a.holds = b.holds) && decide (a.tempo = b.tempo)
-      | some _, none => false
-      | none, _ => true
+    let hdrAgree : Bool := match bdoc with
+      | some a =>
+        (match bookHeader a.header, readHeader a.header with
+         | some x, .ok y => decide (x.title = y.title) && decide (x.artist = y.artist) && decide (x.version = y.version) &&
+             decide (x.lnEnd = y.lnEnd) && decide (x.exbpms = y.exbpms) && decide (x.samples = y.samples) &&
+             decide (x.bpm0 = y.bpm0) && decide (x.misc = y.misc)
+         | some _, .error _ => false
+         | none, _ => true)
+      | none => true
+    let sharedDefined : Bool := match bdoc with
+      | some _ => den.isSome
+      | none => (denote lay lines).isSome
     let flags := obj [("grid_compatible", Json.bool (gridCompatible g tempo)),
                       ("resnap_margins", listToJson ratToJson (resnapMargins g tempo)),
                       ("lanes_ordered", Json.bool (lanesOrdered lay notes)),
                       ("d05", Json.bool (d05Pred lay lnobj notes)),
                       ("book_lexed", Json.bool bdoc.isSome),
-                      ("shared_defined", Json.bool shared.isSome),
-                      ("lex_agree", Json.bool (lexAgree && denAgree))]
+                      ("shared_defined", Json.bool sharedDefined),
+                      ("lex_agree", Json.bool (lexAgree && hdrAgree))]
     .ok (okJson (obj [("den", optToJson denotationToJson den), ("flags", flags)]))
   | "c04.file_lines" =>
     -- `fileLines`: the lines of a file's bytes by the book (LF / CRLF / bare CR)
